@@ -5,8 +5,10 @@ L7 — `XmlContext` as a sequential state machine.
 `sys_modules`).  `step U w s op` runs one public method against the state in
 world `w` and returns the new state and the observable result.  The code is
 followed statement by statement: the cache is keyed by class only, the index
-is cleared and refilled in place when `len(sys.modules)` differs from the
-stamp, `local_names_match` removes unbuildable classes from the index while
+is rebuilt when `len(sys.modules)` differs from the stamp (since 556b985 into a
+local dict that is then assigned to `xsi_cache` — sequentially the same state
+transition as the former clear-and-refill; the difference only shows in the
+interleaved model `Ctx/Conc.lean`), `local_names_match` removes unbuildable classes from the index while
 `find_type_by_fields` is iterating over it.
 -/
 import XsdataModel.Ctx.Universe
